@@ -120,6 +120,12 @@ def extract_unit(unit, repo=REPO):
         t = re.sub(r'\bProtocolState\b', 'ProtocolState', t)
         funcs.append('#line %d "%s"\n%s\n' % (line, os.path.join(repo, f), t))
         rw.fire('R15')
+    for gen in unit.get('generated', []):      # unit-specific mechanical generators: callable(repo) -> (C text, count); must produce something
+        gtxt, gcount = gen(repo)
+        if not gcount:
+            raise cxx2c.ExtractError('%s: generator %s produced nothing' % (unit['name'], getattr(gen, '__name__', 'gen')))
+        funcs.append(gtxt + '\n')
+        rw.fire('R15g', gcount)
     protos = []
     for spec in unit['functions']:
         fcfg = cfg
